@@ -12,7 +12,7 @@ ASSUMPTIONS = ['own Salsa20/ChaCha/RC4 references (self-tested)', 'libcrypto Cha
 ANCHORS = [('salsa20.py', 'Salsa20.keystream'), ('salsa20.py', 'Salsa20.enc'), ('salsa20.py', 'Salsa20.quarterround'), ('salsa20.py', 'Salsa20.rowround'),
            ('salsa20.py', 'Salsa20.columnround'), ('salsa20.py', 'Salsa20.core'), ('salsa20.py', 'Salsa20.hash'), ('chacha.py', 'Chacha.keystream'),
            ('chacha.py', 'Chacha.quarterround'), ('chacha.py', 'Chacha.rowround'), ('rc4.py', 'RC4.ksa'), ('rc4.py', 'RC4.keystream'), ('rc4.py', 'RC4.enc')]
-REQUIRED = ['enc==M^KS', 'length', 'dec(enc)==M', 'prefix', 'counter-carry:enc==M^KS', 'rc4:enc==M^KS', 'rc4:pieces==stream', 'salsa:hash==core']
+REQUIRED = ['siblings:enc==M^KS', 'enc==M^KS', 'length', 'dec(enc)==M', 'prefix', 'counter-carry:enc==M^KS', 'rc4:enc==M^KS', 'rc4:pieces==stream', 'salsa:hash==core']
 NSHARDS = 14
 SAN = {'quick': (2, 40), 'thorough': (2, 40)}
 
@@ -38,6 +38,8 @@ def cases(tier, rng):
                 yield {'k': 'rc4', 'kl': kl, 'n': n, 'kp': ['rand', 'zero', 'ones', 'asc'][(kl + n) % 4]}
         for j in range(60 if tier == 'quick' else 300):
             yield {'k': 'rc4-split', 'kl': [1, 5, 16, 256][j % 4], 'n': [0, 1, 7, 40, 300][j % 5], 'pieces': 1 + j % 5, 'empty': j % 3 == 0}
+        for j in range(10 if tier == 'quick' else 80):
+            yield {'k': 'siblings', 'fam': ['chacha', 'salsa20', 'mixed', 'rc4'][j % 4], 'j': j}
         for pat in ('rand', 'zero', 'ones', 'walk', 'x80', 'asc'):
             for rounds in (20, 2, 8, 12):
                 yield {'k': 'hash', 'pat': pat, 'rounds': rounds}
@@ -112,6 +114,39 @@ def run(case, ctx, rng):
         got = call(run_)
         ctx.eq('rc4:pieces==stream', got, want, key=key, M=M, cuts=cuts)
         ctx.eq('rc4:pieces==oneshot', got, call(lambda: RC4(key).enc(M)), key=key, cuts=cuts)
+    elif k == 'siblings':
+        from vmon.core import siblings
+        from crysp.rc4 import RC4
+        fam = case['fam']
+        ctx.cls(('siblings', fam, case['j'] % 3))
+        specs = []
+        if fam == 'rc4':
+            # independent continuous streams, interleaved piece by piece
+            for t in range(3):
+                key = rng.randbytes(rng.choice([1, 5, 16, 40])); M = rng.randbytes(90)
+                ks = rs.rc4(key, 90); want = bytes(a ^ b for a, b in zip(M, ks))
+                specs.append(('RC4#%d' % t, (lambda key=key: RC4(key)), [('enc(piece %d)' % q, None, None) for q in range(3)]))
+                specs[-1] = (specs[-1][0], specs[-1][1], M, want)
+            objs = [call(sp[1]) for sp in specs]
+            pos = [0, 0, 0]
+            for step in range(9):
+                i = rng.randrange(3)
+                if pos[i] >= 90: continue
+                n = rng.choice([0, 1, 7, 30])
+                got = call(objs[i].enc, specs[i][2][pos[i]:pos[i] + n])
+                ctx.eq('siblings:enc==M^KS', got, specs[i][3][pos[i]:pos[i] + n], sibling=specs[i][0], pos=pos[i], n=n)
+                pos[i] += n
+            return
+        for t in range(3):
+            ciph = fam if fam != 'mixed' else ['salsa20', 'chacha'][t % 2]
+            kb = [128, 256][(t + case['j']) % 2]; rounds = [8, 12, 20][(t + case['j']) % 3]
+            key = rng.randbytes(kb // 8); nonce = rng.randbytes(8); M = rng.randbytes(rng.choice([10, 64, 100]))
+            blockf = rs.salsa_block if ciph == 'salsa20' else rs.chacha_block
+            want = bytes(a ^ b for a, b in zip(M, rs.stream(blockf, key, nonce, len(M), rounds)))
+            v = Bits(nonce, bitorder=1)
+            specs.append(('%s-%d-r%d#%d' % (ciph, kb, rounds, t), (lambda ciph=ciph, key=key, rounds=rounds: mk(ciph, key, rounds)),
+                          [('enc(v,M)', (lambda o, v=v, M=M: o.enc(v, M)), want), ('dec(v,C)', (lambda o, v=v, C=want: o.dec(v, C)), M)]))
+        siblings(ctx, rng, 'siblings:enc==M^KS', specs, late=specs.pop(), family=fam)
     elif k == 'hash':
         from crysp.salsa20 import Salsa20
         X = pattern(rng, 64, case['pat'])
